@@ -71,6 +71,7 @@ def c13(proj, rep, tier):
     rep.floor('W5 Gram-matrix orthonormalisation of the Stiefel map used by the models', n, 2)
     n = numeric.f5(proj, rep, ['numqi.entangle.eof', 'numqi.entangle.measure'])
     rep.floor('F5 clamped square roots in the closed forms', n, 4)
+    hermitian.hm3(proj, rep, ['numqi.entangle.eof', 'numqi.entangle.measure'] if tier == 'quick' else sorted(proj.modules))
     n = numeric.f1(proj, rep, ['numqi.entangle.eof', 'numqi.entangle.measure'])
     rep.floor('F1 log sites in eof / measure', n, 2)
     n = numeric.f2(proj, rep, ['numqi.entangle.eof', 'numqi.entangle.measure'])
@@ -241,6 +242,8 @@ def c15(proj, rep, tier):
     rep.floor('AG3 Euler constructor / extractor symbolic obligations', n, 17)
     n = angles.ag4(proj, rep)
     rep.floor('AG4 double-cover consistency obligations', n, 10)
+    n = angles.ag5(proj, rep)
+    rep.floor('AG5 gimbal-threshold defaults', n, 3)
     n = angles.ag1(proj, rep)
     rep.floor('AG1/F3 inverse-trigonometric sites of the angle extraction', n, 6)
     rep.assume('numerical accuracy of the recovered angles, the SU(2)->SO(3) homomorphism, Wigner-d and Clebsch-Gordan relations are '
@@ -255,6 +258,8 @@ def c16(proj, rep, tier):
     rep.floor('G4 linearity / with_I-order obligations', n, 3)
     n = gellmann.g6(proj, rep)
     rep.floor('G6 Hermiticity / normalisation of the basis arms', n, 4)
+    kdefects.kr1(proj, rep, ['numqi.gellmann'] if tier == 'quick' else sorted(proj.modules))
+    numeric.f2(proj, rep, ['numqi.gellmann'])
     nsite, ntyped = gellmann.g2(proj, rep, None)
     rep.floor('G2 synthesis call sites in the package', nsite, 20)
     rep.floor('G2 projected sites typed', ntyped, 10)
@@ -346,6 +351,8 @@ def c10(proj, rep, tier):
     rep.floor('S5 bounded index / radix draws', n, 4)
     n = seed.s6(proj, rep, None)
     rep.floor('S6 functions with a seed parameter', n, 40)
+    n = seed.s7(proj, rep, None)
+    rep.floor('S7 generator constructions from the seed parameter', n, 35)
     rep.floor('seed-accepting functions', nfun, 50)
     rep.floor('S2 nested seeded call sites', tot['S2'], 70)
     rep.floor('S4 generator draws', tot['S4'], 40)
@@ -396,6 +403,8 @@ def c18(proj, rep, tier):
     rep.floor('DT1 buffers typed after a parameter', n, 1)
     n = kdefects.st1(proj, rep, wide)
     rep.floor('ST1 list-derived values', n, 2)
+    n = kdefects.kr1(proj, rep, ['numqi.utils', 'numqi.state._internal', 'numqi.entangle.upb'])
+    rep.floor('KR1 batched Kronecker products (tetrahedron POVM)', n, 1)
     n = ownership.o3(proj, rep, ['numqi.state._internal', 'numqi.entangle.upb', 'numqi.dicke'])
     rep.floor('O3 public constructors of numqi.state / entangle.upb', n, 20)
 
@@ -409,6 +418,9 @@ def c20(proj, rep, tier):
     rep.floor('T3 thresholds checked against the precision class (C20)', n, 3)
     n = gellmann.g5(proj, rep)
     rep.floor('G5 (basis, complement) return pairs', n, 7)
+    n = kdefects.nz1(proj, rep, ['numqi.matrix_space._misc', 'numqi.matrix_space._numerical_range', 'numqi.matrix_space._hierarchy'] if tier == 'quick' else sorted(proj.modules))
+    n = kdefects.k5(proj, rep, ['numqi.matrix_space._numerical_range'])
+    rep.floor('K5 eigsh calls in the numerical-range routines', n, 4)
     nf, ns = shapes.sh3(proj, rep, ['numqi.matrix_space._numerical_range', 'numqi.matrix_space._hierarchy', 'numqi.matrix_space._misc']
                         if tier == 'quick' else sorted(proj.modules))
     rep.floor('SH3 reshape sites whose axis roles are tracked (matrix_space)', ns, 3)
@@ -428,6 +440,10 @@ def c17(proj, rep, tier):
     rep.floor('PT3 reduction contraction / reorder obligations', n, 4)
     n = ownership.o3(proj, rep, ['numqi.dicke'])
     rep.floor('O3 public functions of numqi.dicke', n, 6)
+    n = kdefects.ro1(proj, rep, ['numqi.utils', 'numqi.dicke'] if tier == 'quick' else sorted(proj.modules))
+    rep.floor('RO1 reshape / ravel calls in utils + dicke', n, 20)
+    n = kdefects.dt2(proj, rep, ['numqi.dicke'])
+    rep.floor('DT2 functions of numqi.dicke', n, 7)
     backend.b1(proj, rep, ['numqi.dicke'], expect_match={'numqi.dicke.partial_trace_ABk_to_AB#0'})
     rep.assume('orthonormality / permutation invariance of the Dicke vectors and the occupation-number identity itself '
                '(<r|D_a><D_b|s> summed over the other copies) are value-level: not decided')
@@ -447,6 +463,10 @@ def c09(proj, rep, tier):
     n = symplectic.sp6(proj, rep)
     rep.floor('SP6 find_transvection twin blocks', n, 1)
     n = seed.s5(proj, rep, ['numqi.random._spf2'])
+    n = seed.s7(proj, rep, ['numqi.random._spf2'])
+    rep.floor('S7 generator constructions in random._spf2', n, 3)
+    n = ownership.o5(proj, rep, ['numqi.group.spf2'])
+    rep.floor('O5 memoised functions of numqi.group.spf2', n, 1)
     rep.assume('the bijection itself (distinct tuples -> distinct matrices, image = the whole group, Lemma 2 case analysis mapping v0 to v1) '
                'is a property of run-time bit vectors: not decided. Decided: encoder/decoder agreement and the helper tables they share.')
 
